@@ -56,6 +56,8 @@ def sig_source(sig, with_self=True):
     ps = ["self"] if with_self else []
     for j in range(1, sig["n"] + 1):
         nm = PNAMES[j - 1]
+        if sig.get("ko", 0) and j == sig["n"] - sig["ko"] + 1:
+            ps.append("*")          # the parameters from here on are keyword-only
         if j <= sig["r"]:
             ps.append(f"{nm}: int")
         elif sig["dk"] == "int":
@@ -67,12 +69,12 @@ def sig_source(sig, with_self=True):
 
 def universe(sig, owner):
     """classes Hit/Trk/Jet/Evt where `owner`'s m() has the case's signature and every other m() has another one"""
-    key = (sig["n"], sig["r"], sig["dk"], owner)
+    key = (sig["n"], sig["r"], sig["dk"], sig.get("ko", 0), owner)
     if key in _universes:
         return _universes[key]
     from func_adl import func_adl_callable  # noqa: F401
     other = "self, z: int = 99"
-    fname = f"fn_{sig['n']}_{sig['r']}_{sig['dk']}"
+    fname = f"fn_{sig['n']}_{sig['r']}_{sig['dk']}_{sig.get('ko', 0)}"
 
     def msig(cls):
         return sig_source(sig) if cls == owner else other
